@@ -148,11 +148,12 @@ class Ctx:
             self.fail(rule, construct, loc, fail_msg, key, detail)
         return cond
 
-    def floor(self, rule: str, what: str, count: int, minimum: int):
+    def floor(self, rule: str, what: str, count: int, minimum: int, explained_by=()):
         """Instance floor: a rule that matches fewer sites than confirmed by hand has gone blind."""
         self.floors.append({'rule': rule, 'what': what, 'count': count, 'floor': minimum})
         if count < minimum:
-            if any(f.rule == rule or f.rule.startswith(rule) or rule.startswith(f.rule) for f in self.findings):
+            if any(f.rule == rule or f.rule.startswith(rule) or rule.startswith(f.rule) or f.rule in explained_by
+                   for f in self.findings):
                 self.notes.append(f'{rule}: instance floor for "{what}" not met ({count} < {minimum}) - the rule '
                                   f'already reports violations, which explain the missing instances')
                 return
@@ -161,6 +162,11 @@ class Ctx:
 
     def note(self, s: str):
         self.notes.append(s)
+
+    def new_violations(self):
+        """Findings not listed in known_findings.json."""
+        known = {(k['property'], k['key']) for k in load_known().get('findings', [])}
+        return [f for f in self.findings if (self.prop, f.key) not in known]
 
     def assume(self, s: str):
         if s not in self.assumptions:
